@@ -307,9 +307,9 @@ func genSteps(t *rapid.T, c Case, g *model.Graph) []model.Step {
 	for i, id := range gen.EdgeIDs {
 		emap[id] = ep[i%len(ep)]
 	}
-	// distinct opens a temporary Badger store per run (twice per case here): the step
-	// belongs to C01, keep it in one case out of four
-	if rapid.IntRange(0, 3).Draw(t, "keepDistinct") != 0 {
+	// distinct opens a temporary Badger store per run (twice per case here; seconds on a
+	// busy machine): the step belongs to C01, keep it in one case out of ten
+	if rapid.IntRange(0, 9).Draw(t, "keepDistinct") != 0 {
 		kept := steps[:0:0]
 		for _, s := range steps {
 			if s.Op != "distinct" {
